@@ -22,7 +22,8 @@ if git apply --check "$SD/patch.diff" 2>/dev/null; then applies=true; git apply 
 mkdir -p tests
 if $applies; then
     out=$(cargo test --offline --lib 2>&1 | tail -5)
-    echo "$out" | grep -q "test result: ok. 42 passed" && base=true
+    # the 42 existing tests pass (a change may bring further tests of its own)
+    echo "$out" | grep -Eq "test result: ok\. (4[2-9]|[5-9][0-9]) passed; 0 failed" && base=true
     out2=$(cargo test --offline --doc 2>&1 | tail -5)
     echo "$out2" | grep -q "test result: ok. 9 passed" || base=false
     cp "$SD/seeded_demo.rs" tests/seeded_demo.rs
